@@ -82,6 +82,7 @@ def answer (st : OState) (ws : List String) : OState × String :=
       | "c01a" => "c01a=" ++ b2s (Trace.wireOnlySubmitted tr)
       | "c01b" => "c01b=" ++ b2s (Trace.onceInOrderWithoutFault tr)
       | "c01c" => "c01c=" ++ b2s (Trace.deliveredWhenPossible tr)
+      | "c01d" => "c01d=" ++ b2s (Trace.noSilentLoss tr)
       | "c02" => "c02=" ++ b2s (Trace.c02 tr)
       | "c02a" => "c02a=" ++ b2s (Trace.attemptsBounded tr)
       | "c02b" => "c02b=" ++ b2s (Trace.neverAtOrAfterExpiry tr)
